@@ -153,6 +153,13 @@ def run(ctx):
         ctx.touch(fn, len(fn.blocks))
         dcs = fn.calls_to('decode_canonical_bytes')
         if not dcs:
+            # read + decode + length check extracted into a private helper: decide the clause inside it (its Ok exits are the sinks)
+            hs = [F.fns[c.local_callee] for c in fn.calls() if c.local_callee in F.fns and not F.fns[c.local_callee].is_closure and F.fns[c.local_callee].calls_to('decode_canonical_bytes')]
+            if hs:
+                fn = hs[0]
+                ctx.touch(fn, len(fn.blocks))
+                dcs = fn.calls_to('decode_canonical_bytes')
+        if not dcs:
             ctx.lost('MPT-C07b', '%s no longer decodes stored payloads' % key)
             continue
         cut = set()
